@@ -710,7 +710,7 @@ func (w *c15World) judgeStuck() {
 		w.mu.Unlock()
 		if !dup {
 			w.res.Violate("c15:end-blocked:collect-handover-send-holds-lock",
-				fmt.Sprintf("%s: End does not return although no Catch is in flight: End is parked on collectLock, held by a Collect parked in the hand-over send (channel %d/%d, every queued peer closed)",
+				fmt.Sprintf("%s: End does not return although no Catch is in flight: End is parked on collectLock, held by a Collect parked in the hand-over send (hand-over channel %d/%d)",
 					w.sc.Case, len(w.P.snowflakeChan), cap(w.P.snowflakeChan)), rec)
 		}
 	} else {
@@ -978,11 +978,31 @@ func (w *c15World) endNowAndCheck(mode string, gap int) bool {
 	return false
 }
 
+// collectBounded runs one Collect in its own goroutine (a Collect may park in
+// the hand-over send: the scenario must go on to its End phase, whose judge
+// decides about that state). Reports whether it returned within d.
+func (w *c15World) collectBounded(tag string, d time.Duration) (c *WebRTCPeer, err error, returned bool) {
+	ch := make(chan struct{})
+	w.wg.Add(1)
+	go func() {
+		defer w.wg.Done()
+		defer close(ch)
+		w.noteCollector()
+		c, err = w.collectOnce(tag)
+	}()
+	select {
+	case <-ch:
+		return c, err, true
+	case <-time.After(d):
+		return nil, nil, false
+	}
+}
+
 // mustCollect: a Collect that is expected to deliver a peer (scenario set-up).
 func (w *c15World) mustCollect(tag string) *c15Peer {
-	c, err := w.collectOnce(tag)
-	if err != nil || c == nil {
-		w.res.Inconcl(fmt.Sprintf("%s: set-up Collect failed: %v", w.sc.Case, err))
+	c, err, returned := w.collectBounded(tag, 5*time.Second)
+	if !returned || err != nil || c == nil {
+		w.res.Inconcl(fmt.Sprintf("%s: set-up Collect failed (returned=%v): %v", w.sc.Case, returned, err))
 		return nil
 	}
 	w.mu.Lock()
@@ -1134,7 +1154,7 @@ func c15ScenarioPopSkipsClosed(res *vlib.Result, max, closed int) {
 		fps = append(fps, fp)
 	}
 	if ok {
-		w.collectOnce("at-capacity") // monitors in Catch: must not catch
+		w.collectBounded("at-capacity", 2*time.Second) // monitors in Catch: must not catch
 		for i := 0; i < closed; i++ {
 			w.closePeer(fps[i], "stale spare")
 		}
@@ -1142,7 +1162,7 @@ func c15ScenarioPopSkipsClosed(res *vlib.Result, max, closed int) {
 			w.popOnce("data-path") // monitor: not a closed one
 		}
 		if closed > 0 {
-			w.collectOnce("below-capacity") // monitor: not refused
+			w.collectBounded("below-capacity", 500*time.Millisecond) // monitor: not refused; may park (D10) when closed == max
 		}
 		res.Obs("pop_skips_closed_scenarios", 1)
 		w.endNowAndCheck("once", 0)
@@ -1160,7 +1180,8 @@ func c15ScenarioRealLoop(res *vlib.Result, max int, variant string) {
 		sc.Poppers = []c15Popper{{StartMs: 100, HoldMs: 60000, Pops: 1}}
 		sc.End.AtMs = 1500
 	case "end-in-second-handover":
-		sc.Steps2 = "connectLoop collects peer0 at t=0; it closes at 3 s; second round at t=10 s: End placed between its Catch and hand-over"
+		sc.Steps2 = "connectLoop collects peer0 at t=0; a popper takes it; it closes at 3 s; second round at t=10 s: End placed between its Catch and hand-over"
+		sc.Poppers = []c15Popper{{StartMs: 100, HoldMs: 60000, Pops: 1}}
 		sc.Closes = []c15Close{{AtMs: 3000, Which: "all-live"}}
 		sc.End.AtHandover = 1
 		sc.End.AtMs = 5000 // fallback x3
@@ -1178,13 +1199,19 @@ func c15ScenarioRealLoop(res *vlib.Result, max int, variant string) {
 func TestVerifC15Peers(t *testing.T) {
 	res := vlib.NewResult("C15", "inpkg-clientlib-c15-peers", "Peers driven through a scripted Tongue (Max 1..5): deterministic scenarios (stale spares, End between Catch and hand-over via hooks, End during a blocked Catch, Pop over closed spares, the real connectLoop) and PRNG timelines of collectors, poppers, self-closing peers and End once/twice/thrice/concurrently; non-trivial = world with >=1 successful Catch whose End was called with live peers, during a Catch or between Catch and hand-over; distinct by script id")
 	defer res.Finish()
-	c15Quiet()
+	c15Quiet(res)
 	c15InstallPeersHooks()
 	root := vlib.NewRand(vlib.Seed()).Split("c15peers")
 	shard, nshards := vlib.Shard()
 
-	var jobs []func()
-	add := func(f func()) { jobs = append(jobs, f) }
+	type job struct {
+		kind string
+		f    func()
+	}
+	var jobs []job
+	kind := ""
+	add := func(f func()) { jobs = append(jobs, job{kind, f}) }
+	kind = "real-loop"
 	for max := 1; max <= 2; max++ {
 		max := max
 		for _, v := range []string{"end-between-rounds", "end-in-second-handover", "end-during-first-catch"} {
@@ -1195,6 +1222,7 @@ func TestVerifC15Peers(t *testing.T) {
 	endModes := []string{"once", "twice-seq", "twice-conc"}
 	for max := 1; max <= 5; max++ {
 		max := max
+		kind = "stale"
 		for mi, em := range endModes {
 			em := em
 			if mi == 0 || max <= 2 {
@@ -1204,6 +1232,7 @@ func TestVerifC15Peers(t *testing.T) {
 				add(func() { c15ScenarioStaleSpares(res, max, true, em) })
 			}
 		}
+		kind = "steered"
 		for q := 0; q < max; q++ {
 			q := q
 			em := endModes[(q+max)%3]
@@ -1211,12 +1240,14 @@ func TestVerifC15Peers(t *testing.T) {
 			add(func() { c15ScenarioEndDuringCatch(res, max, q, []string{"ok", "err"}[(q+max)%2], em) })
 		}
 		add(func() { c15ScenarioEndInHandover(res, max, 0, true, "once") })
+		kind = "pop"
 		for c := 0; c <= max; c++ {
 			c := c
 			add(func() { c15ScenarioPopSkipsClosed(res, max, c) })
 		}
 	}
-	nPrng := vlib.Scale(360, 6000)
+	kind = "prng"
+	nPrng := vlib.Scale(1500, 120000)
 	for i := 0; i < nPrng; i++ {
 		i := i
 		add(func() {
@@ -1225,26 +1256,34 @@ func TestVerifC15Peers(t *testing.T) {
 		})
 	}
 
-	// the long real-loop worlds first, everything through a bounded pool
+	// everything through a bounded pool; the long real-loop worlds start first
 	sem := make(chan struct{}, 48)
 	var wg sync.WaitGroup
-	for ji, job := range jobs {
+	mine := map[string]int64{}
+	for ji, jb := range jobs {
 		if ji%nshards != shard {
 			continue
 		}
-		job := job
+		mine[jb.kind]++
+		mine["all"]++
+		f := jb.f
 		wg.Add(1)
 		sem <- struct{}{}
 		go func() {
 			defer wg.Done()
 			defer func() { <-sem }()
-			job()
+			f()
 		}()
 	}
 	wg.Wait()
 	res.Note("hook_hits", verifhook.AllHits())
 
-	res.RequireObs("worlds", int64(len(jobs)/nshards-1))
+	// coverage owed by this shard's share of the (seed, tier)-fixed job list
+	res.RequireObs("worlds", mine["all"])
+	res.RequireObs("stale_spare_scenarios", mine["stale"])
+	res.RequireObs("pop_skips_closed_scenarios", mine["pop"])
+	res.RequireObs("real_connect_loop_collects", mine["real-loop"])
+	res.RequireObs("end_placed_between_catch_and_handover", mine["steered"]/3)
 	res.RequireObs("catch_ok", 200)
 	res.RequireObs("catch_blocked", 10)
 	res.RequireObs("catch_err-timeout", 3)
@@ -1256,8 +1295,5 @@ func TestVerifC15Peers(t *testing.T) {
 	res.RequireObs("collect_refused_at_capacity", 20)
 	res.RequireObs("catch_filled_last_slot", 20)
 	res.RequireObs("end_calls_repeated", 20)
-	res.RequireObs("end_placed_between_catch_and_handover", 5)
 	res.RequireObs("worlds_end_called_during_catch", 5)
-	res.RequireObs("stale_spare_scenarios", 3)
-	res.RequireObs("real_connect_loop_collects", 2)
 }
